@@ -90,6 +90,7 @@ type job struct {
 	BlockOK    bool   // a timeout is the documented behaviour of the OS object (FIFO without writer), not a law
 	Probe      string // "json_rect": stdout must be a JSON array of objects with identical key lists
 	InProc     *inproc
+	PtyCols    int // standard input is a pseudo-terminal of that many columns (-1: the 0 x 0 winsize of a fresh pty); 0 = not a terminal
 }
 
 func (j *job) program() string {
@@ -252,6 +253,13 @@ func execJob(j *job) result {
 	cmd.Stdout, cmd.Stderr = &so, &se
 	if j.HasStdin {
 		cmd.Stdin = bytes.NewReader(j.Stdin)
+	}
+	if j.PtyCols != 0 && ptyAvailable {
+		if m, s, err := openPty(j.PtyCols); err == nil {
+			cmd.Stdin = s
+			defer m.Close()
+			defer s.Close()
+		}
 	}
 	cmd.SysProcAttr = &syscall.SysProcAttr{Setpgid: true}
 	to := j.Timeout
@@ -731,12 +739,29 @@ func repro(j *job) string {
 		// without the limit the same program meets the runtime's own stack limit (1 GB) after 10-20 s or more
 		sb.WriteString(fmt.Sprintf("ulimit -v %d && ", smallLimitKB))
 	}
+	if j.PtyCols != 0 {
+		// standard input is a terminal of that many columns
+		var inner strings.Builder
+		if j.PtyCols > 0 {
+			inner.WriteString(fmt.Sprintf("stty cols %d; ", j.PtyCols))
+		} else {
+			inner.WriteString("stty cols 0 rows 0; ")
+		}
+		inner.WriteString("csvq")
+		for _, a := range j.argv() {
+			inner.WriteString(" " + shq(a))
+		}
+		sb.WriteString("script -qec " + shq(inner.String()) + " /dev/null")
+		return sb.String()
+	}
 	sb.WriteString("csvq")
 	for _, a := range j.argv() {
 		sb.WriteString(" " + shq(a))
 	}
 	if j.Stdio != "" {
 		sb.WriteString(" " + j.Stdio)
+	} else if !j.HasStdin && (j.Group == "report" || j.Group == "rect") {
+		sb.WriteString(" < /dev/null")
 	}
 	return sb.String()
 }
@@ -927,6 +952,7 @@ func run(seed int64, n int, dir string, _ []string) {
 	defer os.RemoveAll(scratch)
 
 	probeSmallLimit()
+	probePty()
 	workers := runtime.NumCPU()
 	if workers > 32 {
 		workers = 32
@@ -1000,6 +1026,14 @@ func run(seed int64, n int, dir string, _ []string) {
 			// FORMAT / PRINTF placeholders and LIMIT / OFFSET / WITH TIES / PERCENT, exhaustive over small ranges, in-process (gen_grid.go)
 			jobs = append(jobs, formatGrid(o)...)
 			jobs = append(jobs, limitGrid(o)...)
+			// every loaded table is rectangular (gen_rect.go); titled reports x name lengths x screen widths (gen_report.go)
+			tg := time.Now()
+			jobs = append(jobs, rectGrid(o)...)
+			fmt.Fprintf(os.Stderr, "c19: rect grid %.1fs\n", time.Since(tg).Seconds())
+			tg = time.Now()
+			jobs = append(jobs, reportGrid(o)...)
+			jobs = append(jobs, reportJobs()...)
+			fmt.Fprintf(os.Stderr, "c19: report grid %.1fs\n", time.Since(tg).Seconds())
 			jobs = append(jobs, corpusJobs()...)
 			jobs = append(jobs, knownFindingJobs()...)
 			if os.Getenv("VERIF_TIER") == "thorough" {
